@@ -219,7 +219,26 @@ func streamEnd(in []byte) int {
 			return endInsideFrame
 		}
 		switch t {
-		case 0x0, 0x1, 0x4, 0x2, 0x6, 0x8, 0x9:
+		case 0x0, 0x1, 0x2, 0x6, 0x8, 0x9:
+			return endNotReached
+		case 0x4: // SETTINGS: the stream (or an integer of the payload) may end inside it
+			if l > 8192 {
+				return endNotReached
+			}
+			if uint64(rd.Len()) < l {
+				return endInsideFrame
+			}
+			p := make([]byte, l)
+			rd.Read(p)
+			pr := bytes.NewReader(p)
+			for pr.Len() > 0 { // (identifier, value) pairs; an identifier without its value is torn too
+				if _, err := rvi.Read(pr); err != nil {
+					return endInsideFrame
+				}
+				if _, err := rvi.Read(pr); err != nil {
+					return endInsideFrame
+				}
+			}
 			return endNotReached
 		}
 		if uint64(rd.Len()) < l {
